@@ -179,7 +179,12 @@ func (s *scen) Apply(i int) (obs string, viol string) {
 			s.last = nil
 		}
 	}
-	// getters = model
+	// getters = model (a getter that panics on what a load left behind is reported, not a harness crash)
+	defer func() {
+		if r := recover(); r != nil {
+			obs, viol = "", fmt.Sprintf("after %s: a rule getter panicked: %v", s.OpName(i), r)
+		}
+	}()
 	var all []string
 	for _, r := range s.m.Resources {
 		want := s.ids(r)
